@@ -501,7 +501,7 @@ func c03Debug(c *core.Ctx) {
 	}
 	// logIterReturn re-yields each item unchanged
 	for _, fn := range c.P.ModuleFunctions("ocidebug") {
-		if fn.Name() != "logIterReturn" || isInstance(fn) {
+		if fnName(fn) != "logIterReturn" || isInstance(fn) {
 			continue
 		}
 		okItem := false
@@ -571,7 +571,7 @@ func c03Headers(c *core.Ctx) {
 func c03Codec(c *core.Ctx, m *serverModel) {
 	var construct *ssa.Function
 	for _, fn := range c.P.ModuleFunctions("internal/ocirequest") {
-		if fn.Name() == "construct" {
+		if fnName(fn) == "construct" {
 			construct = fn
 		}
 	}
